@@ -550,6 +550,7 @@ func flushFault(rep *ev.Reporter, seed int64, obs map[string]int, forC08 bool) {
 		ntp := time.Date(2024, 5, 1, 8, 0, 0, 0, time.UTC)
 		n := 0
 		writerPanicked := ""
+		writerStuck := false
 		write := func() (e error) {
 			if writerPanicked != "" {
 				return nil // an application that recovered from the panic stops writing
@@ -567,8 +568,29 @@ func flushFault(rep *ev.Reporter, seed int64, obs map[string]int, forC08 bool) {
 				nalu[0] = 0x65
 				au = [][]byte{media.H264SPSVectors[0], media.H264PPS[0], nalu}
 			}
-			e = m.WriteH264(tr, ntp.Add(time.Duration(n)*40*time.Millisecond), int64(n)*3600, au)
+			// (a Write that never returns - a lock left held by the failed rotation - must end the life
+			// with a verdict, not the monitor)
+			done := make(chan error, 1)
+			wn := n
+			go func() {
+				defer func() {
+					if pv := recover(); pv != nil {
+						done <- fmt.Errorf("panic: %v", pv)
+					}
+				}()
+				done <- m.WriteH264(tr, ntp.Add(time.Duration(wn)*40*time.Millisecond), int64(wn)*3600, au)
+			}()
 			n++
+			select {
+			case e = <-done:
+				if e != nil && strings.HasPrefix(e.Error(), "panic: ") {
+					writerPanicked = strings.TrimPrefix(e.Error(), "panic: ")
+				}
+			case <-time.After(20 * time.Second):
+				writerStuck = true
+				writerPanicked = "stuck" // stop writing
+				e = fmt.Errorf("write %d did not return", wn)
+			}
 			return e
 		}
 		for n < 25*(1+k)+10 { // one to three segments and ten units of the next
@@ -593,6 +615,11 @@ func flushFault(rep *ev.Reporter, seed int64, obs map[string]int, forC08 bool) {
 		if forC08 {
 			// C08's clause: no panic in Write* or Handle, whatever happened before
 			obs["write_fault_lives"]++
+			if writerStuck {
+				rep.Report("C08/write-fault/writer-stuck", fmt.Sprintf("variant %d: a Write after the one that failed on a disk write fault (%v) did not return within 20 s", variant, werr), ref)
+				os.RemoveAll(dir)
+				continue
+			}
 			if writerPanicked != "" {
 				rep.Report("C08/write-fault/writer-panic", fmt.Sprintf("variant %d: after a Write had failed on a disk write fault during a rotation (%v) a later Write panicked: %s", variant, werr, writerPanicked), ref)
 			}
@@ -605,7 +632,9 @@ func flushFault(rep *ev.Reporter, seed int64, obs map[string]int, forC08 bool) {
 			os.RemoveAll(dir)
 			continue
 		}
-		if writerPanicked != "" {
+		if writerStuck {
+			rep.Report("C07/flush-fault/writer-stuck", fmt.Sprintf("variant %d: a Write after the one that failed on a disk write fault (%v) did not return within 20 s: a lock was left held", variant, werr), ref)
+		} else if writerPanicked != "" {
 			obs["flush_fault_writer_panicked"]++ // (C08's finding; here: Close must still do its job)
 		}
 		done := make(chan struct{})
